@@ -723,6 +723,10 @@ class BaseConnector:
         # slot is still available.
         attempts = 0
         while True:
+            if self._closed:
+                # close() fails the waiters it finds; nobody will ever wake one
+                # that queues up (again) afterwards.
+                raise ClientConnectionError("Connector is closed.")
             fut: asyncio.Future[None] = self._loop.create_future()
             keyed_waiters = self._waiters[key]
             keyed_waiters[fut] = None
